@@ -13,7 +13,7 @@ from typing import Any
 
 from verif import core, fleet
 from verif import storage_k as K
-from verif.props import c01_grpc, c01_inmem
+from verif.props import c01_grpc, c01_inmem, c01_rdb
 
 RULE = (
     "seeded histories of BaseStorage calls (<=3 studies sharing the id space, <=8 trials, ~4% unknown ids, 15% "
@@ -174,9 +174,10 @@ def correspond(chk: core.Check, n_hist: int, n_ops: tuple[int, int], cfgs: list[
 
 def main(chk: core.Check) -> int:
     chk.rule = RULE + "; gRPC wire level: " + c01_grpc.RULE
+    c01_rdb.translate(chk)  # Generated/RdbCodec.lean (models.py codecs) + Generated/Best.lean, before the proofs are rebuilt
     c01_grpc.regenerate(chk)  # T-grpc: Generated/GrpcTables.lean from servicer.py / client.py / api.proto
     if not getattr(chk, "no_prove", False):
-        chk.prove(["OptunaVerif.Props.C01", "OptunaVerif.Props.C01InMem", c01_grpc.PROPS_MODULE])
+        chk.prove(["OptunaVerif.Props.C01", "OptunaVerif.Props.C01InMem", "OptunaVerif.Props.C01Rdb", c01_grpc.PROPS_MODULE])
     quick = chk.tier == "quick"
     try:
         correspond(chk, n_hist=100 if quick else 500, n_ops=(5, 60) if quick else (5, 200),
@@ -184,6 +185,7 @@ def main(chk: core.Check) -> int:
         c01_inmem.correspond(chk, chk.tier)
     except core.DriverBroken as e:
         chk.broke("correspondence", {"driver": str(e)[:800]})
+    c01_rdb.correspond(chk, chk.tier)  # relational model vs RDBStorage: answers + all eleven tables after every call
     try:
         c01_grpc.correspond(chk, chk.tier)
     except core.DriverBroken as e:
